@@ -5,6 +5,8 @@ from __future__ import annotations
 import itertools
 from typing import Any, Iterator
 
+from xknx.exceptions import CouldNotParseKNXIP
+
 from xknx.io.transport import TCPTransport, UDPTransport
 from xknx.knxip import ConnectionStateResponse, KNXIPFrame, TunnellingAck, TunnellingRequest
 
@@ -43,10 +45,18 @@ def reference(stream_kinds: tuple[str, ...]) -> list[bytes]:
     return out
 
 
-def feed(chunks: list[bytes]) -> tuple[list[bytes], BaseException | None]:
+def feed(chunks: list[bytes], reject: int | None = None) -> tuple[list[bytes], BaseException | None]:
+    """`reject`: the callback refuses its reject-th frame with CouldNotParseKNXIP (what SecureSession.handle_knxipframe does for a
+    wrapper it cannot use) - a declared way for a consumer to discard a frame, which must not disturb the frames after it."""
     got: list[bytes] = []
     tr = TCPTransport(("192.168.1.1", 3671))
-    tr.register_callback(lambda frame, source, t: got.append(frame.to_knx()))
+
+    def cb(frame: Any, source: Any, t: Any) -> None:
+        got.append(frame.to_knx())
+        if reject is not None and len(got) - 1 == reject:
+            raise CouldNotParseKNXIP("consumer cannot use this frame")
+
+    tr.register_callback(cb)
     try:
         for c in chunks:
             tr.data_received_callback(c)
@@ -74,14 +84,16 @@ def split(stream: bytes, cuts: tuple[int, ...]) -> list[bytes]:
     return [stream[a:b] for a, b in zip(pts, pts[1:])]
 
 
-def check_stream(kinds: tuple[str, ...], cuts: tuple[int, ...]) -> list[tuple[str, str]]:
+def check_stream(kinds: tuple[str, ...], cuts: tuple[int, ...], reject: int | None = None) -> list[tuple[str, str]]:
     stream = b"".join(KINDS[k][0] for k in kinds)
-    got, exc = feed(split(stream, cuts))
+    got, exc = feed(split(stream, cuts), reject)
     want = reference(kinds)
     tail_free = all(KINDS[k][2] for k in kinds)
     viols = []
     malformed = [k for k in kinds if not KINDS[k][1]]
     tag = "malformed:" + "+".join(sorted(set(malformed))) if malformed else "wellformed"
+    if reject is not None:
+        tag += ":consumer-rejects-a-frame"
     if exc is not None:
         viols.append((exc_sig("tcp-escape", exc), f"stream {kinds} cut at {cuts}: {exc!r}"))
     elif tail_free and got != want:
@@ -108,6 +120,16 @@ def w_streams(idx: int, n_units: int, thorough: bool) -> Part:
             part.outcomes["bad" if viols else "ok"] += 1
             for sig, detail in viols:
                 part.viol(sig, detail, {"kinds": list(kinds), "cuts": list(cuts)}, rank=(len(kinds), len(cuts), n))
+        # a consumer that refuses one of the frames (every position), under every chunking with <= 2 cut points + octet-wise
+        n_ok = len(reference(kinds))
+        for reject in range(n_ok):
+            for cuts in cuts_le2(n):
+                part.evaluations += 1
+                part.nontrivial += 1
+                viols = check_stream(kinds, cuts, reject)
+                part.outcomes["bad" if viols else "ok"] += 1
+                for sig, detail in viols:
+                    part.viol(sig, detail + f" (the consumer refuses delivered frame #{reject})", {"kinds": list(kinds), "cuts": list(cuts), "reject": reject}, rank=(len(kinds), len(cuts), n))
         if j % 97 == 0:
             part.sample({"kinds": list(kinds), "chunkings": "all" if full else "<=2 cut points + octet-wise"})
     return part
@@ -152,6 +174,7 @@ def run(ctx: Ctx) -> None:
         f"TCP: every stream of <=3 frames over {ORDER} (399 streams) through a fresh real TCPTransport.data_received_callback; EVERY chunking for streams of "
         f"<= {22 if ctx.thorough else 18} octets, every set of <=2 cut points plus octet-by-octet for longer ones; bursts of 1..4096 frames in one chunk. Oracle: no exception; "
         "delivered frames == the well-formed frames of the stream, once, in order (frames after a header whose announced length is below 6 are don't-care). "
+        "The same streams with a consumer that refuses one delivered frame (every position) with CouldNotParseKNXIP, under every chunking with <=2 cut points and octet-wise: the other frames are unaffected. "
         "UDP: every datagram of the C20 structured space through UDPTransport.data_received_callback. non-trivial = chunked deliveries / datagrams that reached a callback"
     )
     units = 64
@@ -163,7 +186,7 @@ def run(ctx: Ctx) -> None:
 
 def replay(case: Any) -> list[tuple[str, str]]:
     if "kinds" in case:
-        return check_stream(tuple(case["kinds"]), tuple(case["cuts"]))
+        return check_stream(tuple(case["kinds"]), tuple(case["cuts"]), case.get("reject"))
     if "burst" in case:
         p = w_burst(case["burst"])
         return [(s, v[1]) for s, v in p.viols.items()]
